@@ -143,10 +143,14 @@ def cli_case(ctx, rng, k):
     binned = rng.random() < 0.3
     below_base = base == 64 and rng.random() < 0.4
     zero_cap = rng.random() < (0.6 if below_base else 0.15)
+    # cut-offs at and beyond the highest quality that can be written, on reads of such qualities
+    top_range = (not below_base) and rng.random() < 0.12
     pool = {}
     for i in range(rng.randint(1, 30)):
         n = rng.randint(0, 40) if not binned else rng.choice([8, 12, 12, 20])
         q = [max(0, min(x, 126 - base)) for x in gen_q(rng, n, [10, 20])]
+        if top_range:
+            q = [126 - base - rng.choice([0, 0, 0, 1, 2, 5]) for _ in range(n)]
         if below_base and n:
             # characters below the quality base: negative qualities, which the trimming sees as they are and only
             # --zero-cap (the last modification) turns into zeros
@@ -172,16 +176,20 @@ def cli_case(ctx, rng, k):
     if minimal:
         argv += ["--report", "minimal"]
     cf, cb, nc = 0, 0, None
+    top = 126 - base
+    hi = lambda lst: rng.choice([top - 1, top, top + 1, top + 2, 120, 1000]) if top_range else rng.choice(lst)
+    if top_range:
+        ctx.count("cli_runs_with_cutoffs_around_the_highest_quality")
     if mode == "q1":
-        cb = rng.choice([5, 10, 20, 30]); argv += ["-q", str(cb)]
+        cb = hi([5, 10, 20, 30]); argv += ["-q", str(cb)]
     elif mode in ("q2", "paired"):
-        cf, cb = rng.choice([0, 5, 10, 20]), rng.choice([0, 5, 10, 20]); argv += ["-q", f"{cf},{cb}"]
+        cf, cb = hi([0, 5, 10, 20]), hi([0, 5, 10, 20]); argv += ["-q", f"{cf},{cb}"]
     elif mode == "both":
         # NextSeq trimming runs first, ordinary quality trimming then sees its result; the report must add both up
-        nc = rng.choice([0, 1, 5, 10, 20]); argv += ["--nextseq-trim", str(nc)]
+        nc = hi([0, 1, 5, 10, 20]); argv += ["--nextseq-trim", str(nc)]
         cf, cb = rng.choice([0, 10, 20]), rng.choice([5, 10, 20]); argv += ["-q", f"{cf},{cb}"]
     else:
-        nc = rng.choice([0, 1, 5, 10, 20]); argv += ["--nextseq-trim", str(nc)]
+        nc = hi([0, 1, 5, 10, 20]); argv += ["--nextseq-trim", str(nc)]
     cf2, cb2 = cf, cb
     if mode == "paired":
         if rng.random() < 0.7:
